@@ -244,6 +244,8 @@ def stats_rules(run, db):
         # array is the reduction over the finite samples there (a fast path for data without invalid samples)
         return any(t is True and ('.all()' in c or 'np.all(' in c) and 'not ' not in c for c, t in it.conds)
 
+    state = {}
+
     def method(v, name, args, kwargs, node):
         if isinstance(v, Arr) and getattr(v, 'is_mask', False) and name in ('all', 'any') and not args and not kwargs:
             return Unknown('whether %s sample is finite' % ('every' if name == 'all' else 'any'))        # both answers are explored
@@ -251,13 +253,15 @@ def stats_rules(run, db):
             reductions.append((name, isinstance(v, Finite) or all_finite_path(), node))
             if name == 'sum':
                 return orig_ext('numpy.sum', [Arr(v.shape, v.data)], {}, node)
+            if name == 'mean' and state.get('opaque_mean') and [dom.key(c) for c in v.data] == ['a%d' % i for i in range(len(v.data))]:
+                return dom.sym('MEAN')          # the mean as a number of its own: a form that relies on sum == n * mean is not the same form
             if name == 'mean':
                 s = orig_ext('numpy.sum', [Arr(v.shape, v.data)], {}, node)
                 return it.binop(ast.Div(), s, Const(len(v.data)), node)
             if name == 'std':
                 # the definition, so that `x.std()` and a spelled-out root-mean-square deviation are the same value
                 s = orig_ext('numpy.sum', [Arr(v.shape, v.data)], {}, node)
-                m_ = dom.rat(it.binop(ast.Div(), s, Const(len(v.data)), node))
+                m_ = dom.rat(it.binop(ast.Div(), s, Const(len(v.data)), node)) if not state.get('opaque_mean') else Rat(R.atom('MEAN'))
                 cells = [dom.rat(x) for x in v.data]
                 if m_ is not None and all(c is not None for c in cells):
                     acc = Rat(R.const(0))
@@ -330,6 +334,28 @@ def stats_rules(run, db):
         raw = [r for r in reductions if not r[1]]
         run.check(bool(reductions) and not raw, 'C12.stats', fi.qual, 'finite mask', 'every reduction in %s runs over array[isfinite(array)]' % name,
                   '%s reduces over samples that were not selected by the finite mask: %s' % (name, [r[0] for r in raw]), fi.loc(raw[0][2]) if raw else fi.loc())
+    # std is formed from the deviations about the mean.  With the mean an opaque number M the two-pass form is sqrt(sum (a_i - M)^2 / n); the
+    # one-pass form sqrt(<a^2> - M^2) is a different expression -- equal only through sum a_i == n M, and in floating point a difference of two
+    # large numbers that cancels catastrophically when the mean is large compared with the spread (std exactly 0, larger than PV, or NaN)
+    fi = db.func('prysm.util.std')
+    state['opaque_mean'] = True
+    try:
+        M_ = Rat(R.atom('MEAN'))
+        want_dev = Rat(R.sqrt(((xs[0] - M_) * (xs[0] - M_) + (xs[1] - M_) * (xs[1] - M_) + (xs[2] - M_) * (xs[2] - M_)) / 3))
+        res = returns(it.run(fi, kwargs=lambda: {'array': Arr((n,), [dom.sym('a%d' % i) for i in range(n)])}), fi)
+        for p_ in res:
+            got = dom.rat(p_.value)
+            if got is None:
+                raise AnalysisError('std with the mean kept as a number of its own: the value is not followed (%r)' % (p_.value,))
+            if 'MEAN' not in got.atoms() and not any('MEAN' in str(a) for a in got.atoms()):
+                # the routine does not take the mean through a reduction this rule sees (np.mean spelled another way): nothing to say
+                raise AnalysisError('std: the mean is not formed by a reduction this rule follows; the form of the variance is not judged')
+            run.check(got == want_dev or same_for_real_samples(got, want_dev), 'C12.stats', fi.qual, 'deviations about the mean',
+                      'std is the root mean square of the deviations about the mean (no difference of large numbers)',
+                      'std = %s with M the mean: the variance is not formed from the deviations a_i - M (a one-pass <a^2> - M^2 cancels catastrophically when the mean is large '
+                      'compared with the spread: std comes out 0, larger than PV, or NaN, and Sa <= std <= PV fails)' % got.key()[:160], fi.loc())
+    finally:
+        state['opaque_mean'] = False
     # reading a statistic leaves the samples alone: no in-place write reaches the argument (directly, through a view such as
     # ravel(), through a helper that hands its argument back, or as an out= buffer)
     from .purity import input_mutations
